@@ -515,7 +515,8 @@ func checkC13(r *core.Run) {
 	}
 	r.Set("layer_append", fmt.Sprintf("%d bases x (%d values + all byte strings length<=2): %d", len(bases), len(argv), nap))
 	// WithParams
-	pbases := []string{"https://x.com/a", "https://x.com/a?", "https://x.com/a?b=c", "https://x.com/a?b=c&", "https://x.com/a#f", "https://x.com/a?b=c#f", "https://x.com/a#f?g=h", "/a?#", "about:blank#x", "", "https://x.com/a?b#c#d?e", "/p#a?", "about:blank#?", "https://x.com/app.js#/settings?tab=1"}
+	pbases := []string{"https://x.com/a", "https://x.com/a?", "https://x.com/a?b=c", "https://x.com/a?b=c&", "https://x.com/a#f", "https://x.com/a?b=c#f", "https://x.com/a#f?g=h", "/a?#", "about:blank#x", "", "https://x.com/a?b#c#d?e", "/p#a?", "about:blank#?", "https://x.com/app.js#/settings?tab=1",
+		"https://x.com/R&", "/static/q&a/x&#top", "/a&", "https://x.com/a&b=c", "/a?&", "/a?b&#f", "https://x.com/a;b"}
 	kv := []string{"", "a", "b", "&", "=", "#", "?", "%26", "é", " ", "a=b&c", "/", "\x00"}
 	var npa int64
 	core.ParallelFor(len(pbases), func(bi int) {
